@@ -179,23 +179,45 @@ class Inconclusive(Exception):
 
 
 class CountingQueue:
-    """SimpleQueue stand-in that lets the rig decide 'LMDB writer idle' by counting"""
+    """SimpleQueue stand-in that lets the rig decide 'LMDB writer idle' by counting: the writer is idle
+    when every item that was put has been taken AND the writer is parked in a blocking get() again
+    (it only comes back for more after the transaction of what it took has ended)"""
 
     def __init__(self):
         self._q = _queue.SimpleQueue()
         self._lock = threading.Lock()
         self.puts = 0
-        self.get_calls = 0
+        self.taken = 0
+        self.waiting = 0
 
     def put(self, item, *a, **k):
         with self._lock:
             self.puts += 1
         self._q.put(item)
 
-    def get(self, *a, **k):
+    put_nowait = put
+
+    def get(self, block=True, timeout=None):
+        if block and timeout is None:
+            with self._lock:
+                self.waiting += 1
+            try:
+                item = self._q.get()
+            except BaseException:
+                with self._lock:
+                    self.waiting -= 1
+                raise
+            with self._lock:
+                self.waiting -= 1
+                self.taken += 1
+            return item
+        item = self._q.get(block, timeout)  # may raise Empty
         with self._lock:
-            self.get_calls += 1
-        return self._q.get(*a, **k)
+            self.taken += 1
+        return item
+
+    def get_nowait(self):
+        return self.get(False)
 
     def qsize(self):
         return self._q.qsize()
@@ -205,7 +227,7 @@ class CountingQueue:
 
     def idle(self):
         with self._lock:
-            return self.get_calls == self.puts + 1
+            return self.taken == self.puts and self.waiting >= 1
 
 
 class _QueueModule:
